@@ -813,11 +813,15 @@ def envelope_chunk(repo: Repo, rep, P: str, tables):
     if isinstance(pl, ast.Name):
         dvar = pl.id
 
-    def is_points_piece(v: ast.AST) -> bool:
-        return isinstance(v, ast.Call) and isinstance(v.func, ast.Attribute) and v.func.attr == "join" and v.args \
-            and isinstance(v.args[0], (ast.GeneratorExp, ast.ListComp))
     from ..packed import single_defs, resolve_names
     wdefs = single_defs(wfn)
+
+    def is_points_piece(v: ast.AST) -> bool:
+        if isinstance(v, ast.Call) and isinstance(v.func, ast.Attribute) and v.func.attr == "join" and v.args and isinstance(v.args[0], ast.Name) \
+                and isinstance(wdefs.get(v.args[0].id), (ast.GeneratorExp, ast.ListComp)):
+            v.args[0] = wdefs[v.args[0].id]          # packed_points = (pack(...) for x, y in points); b"".join(packed_points)
+        return isinstance(v, ast.Call) and isinstance(v.func, ast.Attribute) and v.func.attr == "join" and v.args \
+            and isinstance(v.args[0], (ast.GeneratorExp, ast.ListComp))
     accumulated = dvar is not None and any(isinstance(st, ast.AugAssign) and norm(st.target) == dvar for st in stmts_of(wfn))
 
     def take(val):
@@ -847,7 +851,7 @@ def envelope_chunk(repo: Repo, rep, P: str, tables):
                 parts.append(("zeros", v.args[0].value, [f"bytes({v.args[0].value})"]))
             else:
                 try:
-                    b = repo.fold(v, ci=env)
+                    b = repo.fold(v, ci=env, sf=env.file)
                     parts.append(("zeros" if set(b) <= {0} else "const", len(b), [repr(b)]))
                 except (NotConst, TypeError):
                     parts.append(("unknown", -1, [norm(v)]))
@@ -887,19 +891,30 @@ def envelope_chunk(repo: Repo, rep, P: str, tables):
     for kind, size, info in parts:
         if kind == "pack":
             fmt = info[0]
-            codes = fmt.lstrip("<>=!@")
-            for c, a in zip(codes, info[1:]):
-                sz = struct.calcsize("<" + c)
-                wfields.append((off, sz, a))
+            try:
+                _, items_ = packed._fmt_items(fmt)
+            except Exception:
+                items_ = [(c, struct.calcsize("<" + c)) for c in fmt.lstrip("<>=!@")]
+            args_ = list(info[1:])
+            for c, sz in items_:
+                if c == "x":
+                    wfields.append((off, sz, "<zeros>"))        # pad byte of the format
+                else:
+                    wfields.append((off, sz, args_.pop(0) if args_ else "?"))
                 off += sz
         else:
             wfields.append((off, size, "<zeros>"))
             off += size
     rfields: List[Tuple[int, int, str]] = []
     off = slice_lo
-    for c, t in zip(rfmt.lstrip("<>=!@"), unpack_stmt.targets[0].elts):
-        sz = struct.calcsize("<" + c)
-        rfields.append((off, sz, norm(t)))
+    try:
+        _, ritems_ = packed._fmt_items(rfmt)
+    except Exception:
+        ritems_ = [(c, struct.calcsize("<" + c)) for c in rfmt.lstrip("<>=!@")]
+    rtargets_ = list(unpack_stmt.targets[0].elts)
+    for c, sz in ritems_:
+        if c != "x":
+            rfields.append((off, sz, norm(rtargets_.pop(0)) if rtargets_ else "?"))
         off += sz
     ok = True
     if slice_hi is None or slice_hi - slice_lo != rsize:
